@@ -70,7 +70,7 @@ def open_fds_on(path):
     try:
         for name in os.listdir("/proc/self/fd"):
             try:
-                if os.path.realpath(os.readlink(f"/proc/self/fd/{name}")) == real:
+                if os.readlink(f"/proc/self/fd/{name}") == real:  # the kernel reports resolved paths
                     out.append(int(name))
             except OSError:
                 pass
